@@ -113,8 +113,44 @@ def driver_shape(ctx, d, name):
         ctx.holds('R1.returned', where, 'the driver returns the checkpoint handed to the last callback')
 
 
+def callback_parameters_stored(ctx):
+    """callback(mode, filename, target_rel_err) stores its three arguments in the members the decision and the
+    writer read, and mpi_callback hands all three to the callback it wraps: a dropped argument falls back to the
+    default (target 0 = never stop on precision) without any diagnostic"""
+    p = ctx.prog
+    n = 0
+    for base, inner in (('hep::callback', None), ('hep::mpi_callback', 'callback_')):
+        short_ = base.split('::')[-1]
+        for c in [c for c in instances(p, '%s::%s' % (base, short_)) if not c.is_implicit and len(c.params) == 3]:
+            n += 1
+            ctx.analysed(c)
+
+            def r(c=c, inner=inner):
+                s, ex = summarise(p, c)
+                obj = s.this if inner is None else fld(s.this, inner)
+                want = {'mode_': sym(c.params[0].name), 'filename_': sym(c.params[1].name),
+                        'target_rel_err_': sym(c.params[2].name)}
+                bad = [(k, T.pretty(fld(obj, k))[:60]) for k, v in want.items() if fld(obj, k) != v]
+                if bad:
+                    ctx.violation('R6.parameters_stored', fsite(c), 'the constructor does not store / forward %s: the '
+                                  'callback decides with a default instead of the value the user passed'
+                                  % ', '.join(k for k, _ in bad), {'members': bad})
+                else:
+                    ctx.holds('R6.parameters_stored', fsite(c), 'mode, file name and target reach the members of the same role')
+            ctx.guard('R6.parameters_stored', fsite(c), r)
+    ctx.count('callback constructors', n, 2)
+
+
 def check(ctx):
     p = ctx.prog
+    # the callbacks decide with the mode, file name and target they were constructed with
+    callback_parameters_stored(ctx)
+    # no state survives from one call to the next in a function-local static
+    no_static_state(ctx, 'state.no_static_locals')
+    # all arithmetic behind this property happens in the numeric type T of the instantiation
+    single_precision(ctx, 'prec.single_type', ['hep::callback::operator()'], 1)
+    # no constructor of the classes this property computes with leaves a member indeterminate
+    members_initialised(ctx, 'init.members', ['hep::callback', 'hep::mpi_callback'], 2)
     nd = 0
     for name in SERIAL_DRIVERS + MPI_DRIVERS:
         for d in instances(p, name):
